@@ -196,5 +196,18 @@ def check(repo: Repo, R) -> None:
         raise AnalysisError("self-check failed: the module-level-state rule does not see its positive sample")
     R.check(not st_, "C19.4-wrapper", f"{F_GENERATORS}::module-state", F_GENERATORS, f"{F_GENERATORS} keeps no module-level table that its functions write to" if not st_ else f"module-level state written by the generators: {st_}",
             why="a second wrap of another cell with the same name (or of the same cell after an edit) returns the first wrapper: the wrapped ports are those of another module")
+    # the generators wire by call (`unit(**conns)`): connect-by-call must connect — also a port named like an attribute of
+    # the instance (`of`, `name`, `conns`)
+    from . import c04 as _c04
+    R.run(_c04.funnels, repo, shared.Retag(R, lambda r, k: "C19.6-wired-through-connect" if "__call__" in k else None,
+                                          "a unit port named like an Instance attribute (`of`, `name`, `conns`, `_x`) is assigned instead of connected: Wrapper / Series over such a unit overwrite the instance's target and fail"))
+    # the series pair may be given as the unit's Signals themselves: the parameters of a generator call are hashed (cache key),
+    # so a Signal stays hashable — a class that defines __eq__ without __hash__ is unhashable in Python
+    cs = repo.cls(F_SIGNAL, "Signal")
+    has_eq, has_hash = "__eq__" in cs.methods, "__hash__" in cs.methods and cs.class_attrs.get("__hash__") is None
+    idh = has_hash and any(ast.unparse(r_.value) in ("hash(id(self))", "id(self)", "object.__hash__(self)") for r_ in shared.returns_of(cs.methods["__hash__"].node))
+    R.check((not has_eq) or idh, "C19.2-series-corner-cases", f"{F_SIGNAL}::Signal::hashable", cs.site,
+            f"Signal defines __eq__ ({has_eq}) together with an identity __hash__ ({idh})",
+            why="`Series(unit=u, conns=(u.a, u.b))` dies in the generator cache with `TypeError: unhashable type: 'Signal'`")
     R.floor("C19.1-series-topology", 6)
     R.floor("C19.5-array-element-k-gets-bit-k", 3)
